@@ -64,7 +64,24 @@ type BlockExecutor struct {
 	procInterrupt atomic.Bool    // interrupt signaler for block processing
 
 	// cache the verification results over a single height
-	cache map[common.Hash]struct{}
+	cache map[validatedBlock]struct{}
+}
+
+// validatedBlock identifies what ValidateBlock has checked. The block hash covers the last commit only
+// through its signatures, while the commit's height, round and block id take part in verifying them.
+type validatedBlock struct {
+	hash          common.Hash
+	commitHeight  uint64
+	commitRound   uint32
+	commitBlockID string
+}
+
+func validatedBlockKey(block *types.Block) validatedBlock {
+	key := validatedBlock{hash: block.Hash()}
+	if lc := block.LastCommit(); lc != nil {
+		key.commitHeight, key.commitRound, key.commitBlockID = lc.Height, lc.Round, lc.BlockID.Key()
+	}
+	return key
 }
 
 // NewBlockExecutor returns a new BlockExecutor with a NopEventBus.
@@ -77,7 +94,7 @@ func NewBlockExecutor(stateStore Store, logger log.Logger, evpool EvidencePool, 
 		quit:   make(chan struct{}),
 
 		logger: logger,
-		cache:  make(map[common.Hash]struct{}),
+		cache:  make(map[validatedBlock]struct{}),
 	}
 }
 
@@ -91,7 +108,7 @@ func (blockExec *BlockExecutor) SetEventBus(b *types.EventBus) {
 // Validation does not mutate state, but does require historical information from the stateDB,
 // ie. to verify evidence from a validator at an old height.
 func (blockExec *BlockExecutor) ValidateBlock(state LatestBlockState, block *types.Block) error {
-	hash := block.Hash()
+	hash := validatedBlockKey(block)
 	if _, ok := blockExec.cache[hash]; ok {
 		return nil
 	}
@@ -147,7 +164,7 @@ func (blockExec *BlockExecutor) ApplyBlock(state LatestBlockState, blockID types
 	fail.Fail() // XXX
 
 	// clear the verification cache
-	blockExec.cache = make(map[common.Hash]struct{})
+	blockExec.cache = make(map[validatedBlock]struct{})
 
 	// Events are fired after everything else.
 	// NOTE: if we crash between Commit and Save, events wont be fired during replay
